@@ -6,8 +6,8 @@ use rlverif::*;
 use sched_common::*;
 
 pub const GATES: &[&str] = &[
-    "cmd.begin", "txn.pinned", "txn.locked", "vm.commit.begin", "vm.commitA", "vm.committed",
-    "cp.pinned", "cp.table", "cp.locked", "cp.pass.end", "vac.find", "vac.unlinked", "rd.open",
+    "cmd.begin", "txn.lock.begin", "txn.pinned", "txn.locked", "vm.commit.begin", "vm.commitA", "vm.committed",
+    "cp.pass.begin", "cp.table", "cp.locked", "cp.pass.end", "vac.find", "vac.unlinked", "rd.open",
     "rd.batch", "ddl.drop.applied",
 ];
 
